@@ -1361,6 +1361,10 @@ impl PackageBuilder {
             script.apply(&mut actual_records, offset, POSTUNTRANS_TAGS);
         }
 
+        if let Some(script) = self.verify_script {
+            script.apply(&mut actual_records, offset, VERIFYSCRIPT_TAGS);
+        }
+
         if let Some(vendor) = self.vendor {
             actual_records.push(IndexEntry::new(
                 IndexTag::RPMTAG_VENDOR,
